@@ -166,7 +166,7 @@ func runModUp(c ModUpCase, rec *h.Rec) error {
 	return nil
 }
 
-var propModUp = h.NewProp("TestPropModUp", h.Budget{Quick: 1500, Thorough: 50000}, genModUp, runModUp)
+var propModUp = h.NewProp("TestPropModUp", h.Budget{Quick: 1600, Thorough: 25000}, genModUp, runModUp)
 
 func TestPropModUp(t *testing.T) { propModUp.Check(t) }
 
@@ -362,6 +362,6 @@ func runModDown(c ModDownCase, rec *h.Rec) error {
 	return nil
 }
 
-var propModDown = h.NewProp("TestPropModDown", h.Budget{Quick: 1500, Thorough: 50000}, genModDown, runModDown)
+var propModDown = h.NewProp("TestPropModDown", h.Budget{Quick: 1600, Thorough: 25000}, genModDown, runModDown)
 
 func TestPropModDown(t *testing.T) { propModDown.Check(t) }
